@@ -152,7 +152,7 @@ def trace_part(prop, insts, V, workdir, samples=3, nproc=None):
                 seen.add("c19first")
             if V.report(dict(clause=clause, site=evname, cls=cfg_class(byid[tid]), retflag="%s/%s" % (evt.get("flag"), evt.get("msgc")),
                              hasproj="yes" if byid[tid].get("proj") else "no", dyksite=str(evt.get("site", "")), exc=("%s: %s" % (evt.get("type"), str(evt.get("text"))[:60])) if evname == "Raise" else "",
-                             retnx=str(evt.get("nx", "")), averaging="yes" if byid[tid].get("nsamples", "1") != "1" else "no", what="trace %d event %d (%s): clause %s false" % (tid, l, evname, clause),
+                             retnx=str(evt.get("nx", "")), initrepair=str(t["summary"].get("initrepair", "")), averaging="yes" if byid[tid].get("nsamples", "1") != "1" else "no", what="trace %d event %d (%s): clause %s false" % (tid, l, evname, clause),
                              instance=dict(kind="solver", inst=byid[tid]), window=win, cfg=t["cfg"])):
                 nviol += 1
     outcomes, classes, counts = {}, set(), {}
@@ -590,6 +590,10 @@ def corpus_C19(tier):
             inst.update(nsamples="2")
         elif r == 6:
             inst.update(restarts=corpus._pick(rng, ["soft", "hard"]), maxunsucc=2, rhoend=1e-2, maxfun=90, prob="ros3", n=2, m=2)
+        if i % 3 == 0:
+            # the slow-progress test is live (few slow iterations end the run) and the per-iteration table is observed
+            inst["diag"] = True
+            inst["user_params"] = dict(inst.get("user_params") or {}, **{"slow.max_slow_iters": int(rng.integers(2, 6)), "slow.thresh_for_slow": float(corpus._pick(rng, [1e-8, 1e-2, 1e-1]))})
         inst.pop("growing", None)
         inst.pop("incnpt", None)
         up = dict(inst.get("user_params") or {})
